@@ -445,3 +445,32 @@ Definition str_arg (s : list byte) : arg := mkArg (AStr s) (string_of_bytes s).
 Definition range_arg (b e : Z) : arg := mkArg (ARange b e) ("Range(" ++ show_Z b ++ ", " ++ show_Z e ++ ")").
 Definition vec_arg (l : list Z) : arg :=
   mkArg (AVec (map (fun z => ENum (NumInt z) (show_Z z)) l)) (show_list show_Z l).
+
+(* ---------- printable-ASCII rendering for the correspondence check ---------- *)
+(* messages may embed a Display rendering with non-ASCII bytes, hence hex *)
+Definition show_err (e : err) : string :=
+  match e with
+  | TypeError m => "TypeError:" ++ hex_of_bytes (bytes_of_string m)
+  | ValueError m => "ValueError:" ++ hex_of_bytes (bytes_of_string m)
+  | IndexError m => "IndexError:" ++ hex_of_bytes (bytes_of_string m)
+  | RustPanic m => "PANIC:" ++ hex_of_bytes (bytes_of_string m)
+  end.
+
+Definition show_res (r : res) : string :=
+  match r with
+  | Ok RNone => "nil"
+  | Ok (RBool b) => "B" ++ show_bool b
+  | Ok (RNum z) => "N" ++ show_Z z
+  | Ok (RStr t) => "S" ++ hex_of_bytes t
+  | Ok (RVecNum l) => "VN" ++ show_list show_Z l
+  | Ok (RVecStr l) => "VS" ++ show_list hex_of_bytes l
+  | Ok RStopIter => "stop"
+  | Error e => show_err e
+  end.
+
+Definition show_index_result {A} (f : A -> string) (r : result (index_result A) err) : string :=
+  match r with
+  | Ok (Scalar x) => "E" ++ f x
+  | Ok (Slice l) => "L" ++ show_list f l
+  | Error e => show_err e
+  end.
